@@ -325,3 +325,17 @@ Theorem C08_state_after_close_full_refuted :
   ~ state_after_close_full_statement current_variant redis_backend 300000.
 Proof. exact state_after_close_full_refuted. Qed.
 Print Assumptions C08_state_after_close_full_refuted.
+
+(* Only the owner connection's close may remove its record.  The forwarding paths (command_forwarder.go, http_proxy.go,
+   dns_handler.go) are lookups: under every schedule they leave the store alone (C08_lookups_do_not_disturb_any_schedule) and
+   C08_registration_survives_all_schedules admits no invocation that unregisters the new connection.  A forwarder that
+   "cleans up" the connection it located on its own node is refuted (seeded C08-14; replayed on the real SessionManager by
+   the harness event ForwardRacingLogin): *)
+Theorem C08_forwarder_cleanup_refuted : forall cas : bool,
+  let s1 := trun cas (tempty, [TFind 7; TReg 1 10 7 true]) [1; 1; 0; 0]%nat in
+  nth_error (snd s1) 0 = Some (TFindDone (TFound 1 10)) /\
+  tfind (fst s1) 7 = TFound 1 10 /\
+  let s2 := trun cas (fst s1, [TUnreg 10]) [0; 0; 0; 0]%nat in
+  all_done s2 = true /\ tfind (fst s2) 7 = TAbsent.
+Proof. exact forwarder_cleanup_refuted. Qed.
+Print Assumptions C08_forwarder_cleanup_refuted.
